@@ -93,12 +93,12 @@ FailCells(envs) ==
      Sat(env, T.conds[x[3]]) /\ (Bad(e.mm) \/ Bad(mi) \/ ~SubAlts(AltSet(mi, env), AltSet(e.mm, env)))}
 (* amoco's own evaluation of mm on a concrete state: <<kind, index, branch, index in T.ev>> *)
 FailEvRegs(envs) ==
-  {x \in {"r"} \X (1..Len(T.regs)) \X {1, 2} \X (1..Len(T.ev)) :
+  {x \in {"er"} \X (1..Len(T.regs)) \X {1, 2} \X (1..Len(T.ev)) :
      LET ev == T.ev[x[4]] e == T.regs[x[2]] mi == IF x[3] = 1 THEN e.m1 ELSE e.m2 IN
      ev.raised = "" /\ Sat(envs[ev.k], T.conds[x[3]]) /\ ~Bad(mi) /\ Unknown \notin AltSet(mi, envs[ev.k])
        /\ (Bad(ev.regs[x[2]].t) \/ ~SubAlts(AltSet(mi, envs[ev.k]), AltSet(ev.regs[x[2]].t, envs[ev.k])))}
 FailEvCells(envs) ==
-  {x \in {"m"} \X (1..Len(T.cells)) \X {1, 2} \X (1..Len(T.ev)) :
+  {x \in {"em"} \X (1..Len(T.cells)) \X {1, 2} \X (1..Len(T.ev)) :
      LET ev == T.ev[x[4]] e == T.cells[x[2]] mi == IF x[3] = 1 THEN e.m1 ELSE e.m2 IN
      ev.raised = "" /\ Sat(envs[ev.k], T.conds[x[3]]) /\ ~Bad(mi) /\ Unknown \notin AltSet(mi, envs[ev.k])
        /\ (Bad(ev.cells[x[2]].t) \/ ~SubAlts(AltSet(mi, envs[ev.k]), AltSet(ev.cells[x[2]].t, envs[ev.k])))}
@@ -209,8 +209,16 @@ CellClass(x, envs) ==
   ELSE IF x[1] = "i" /\ x[2] \in WiderSecond /\ x[3] = 2 THEN (IF x[2] \in WiderVec THEN "SkipWiderSecondVec" ELSE "SkipWiderSecond")
   ELSE IF x[1] = "k" /\ T.items[x[2]].loc.k = "ptr" /\ T.items[x[2]].loc.base.k = "top" /\ T.thr > 0 THEN "TopPointerKey"
   ELSE ""
+(* a failure of amoco's evaluation c >> mm at a memory byte: the class of the byte, else - when mm itself *)
+(* stores through a vector-valued pointer - the unfaithful replay of such a map's items by rcompose       *)
+MmHasVecKey == \E j \in 1..Len(T.items) : T.items[j].mm_has = 1 /\ T.items[j].loc.k = "ptr" /\ T.items[j].loc.base.k = "vec"
+EvClass(x, envs) ==
+  IF x[1] = "em"
+  THEN LET c == CellClass(<<"m", x[2], x[3], 0>>, envs) IN
+       IF c # "" THEN c ELSE IF MmHasVecKey THEN "VecMapCopyDiffers" ELSE ""
+  ELSE IF x[1] = "er" THEN "" ELSE CellClass(x, envs)
 Attribute(fc, fu, fl, fk, envs) ==
-  LET cs == {CellClass(x, envs) : x \in fc \cup fl \cup fk} IN
+  LET cs == {EvClass(x, envs) : x \in fc \cup fl \cup fk} IN
   IF fu # {} \/ "" \in cs THEN {} ELSE cs
 
 Verdict ==
